@@ -575,7 +575,7 @@ impl GraphStore {
 //@fn GraphStore::node_count ret=r props=C07
 //@ensures
         r == live(self.nodes@, self.nodes@.len() as int),                          //#one_per_node_whatever_its_versions
-//@replace "self.nodes.iter().flatten().count()" => "vec_flatten_count(&self.nodes)" :: (only present in older versions of the function) iterator chain routed through a wrapper whose body is the same chain
+//@replace? "self.nodes.iter().flatten().count()" => "vec_flatten_count(&self.nodes)" :: (only present in older versions of the function) iterator chain routed through a wrapper whose body is the same chain
 //@replace "self.nodes.iter().filter(" => "vec_count_where(&self.nodes, " :: iterator chain routed through a wrapper whose body is the same chain
 //@replace ").count()" => ")" :: (same chain)
 //@closure vec_count_where#1 (versions: &&Vec<Node>) -> (b: bool) ensures b == (versions@.len() > 0)
@@ -587,7 +587,7 @@ impl GraphStore {
 //@ensures
         r@.len() == latest(self.nodes@, self.nodes@.len() as int).len(),           //#one_per_node
         forall|j: int| 0 <= j < r@.len() ==> *#[trigger] r@[j] == latest(self.nodes@, self.nodes@.len() as int)[j],     //#newest_version_of_each
-//@replace "self.nodes.iter().flatten().collect()" => "vec_flatten_collect(&self.nodes)" :: (only present in older versions of the function) iterator chain routed through a wrapper whose body is the same chain
+//@replace? "self.nodes.iter().flatten().collect()" => "vec_flatten_collect(&self.nodes)" :: (only present in older versions of the function) iterator chain routed through a wrapper whose body is the same chain
 //@replace "self.nodes.iter().filter_map(" => "vec_filter_map_collect(&self.nodes, " :: iterator chain routed through a wrapper whose body is the same chain
 //@replace ").collect()" => ")" :: (same chain)
 //@closure vec_filter_map_collect#1 (versions: &Vec<Node>) -> (o: Option<&Node>) ensures (match o { Some(x) => versions@.len() > 0 && *x == versions@.last(), None => versions@.len() == 0 })
@@ -681,7 +681,7 @@ impl GraphStore {
 //@end
 
 //@fn GraphStore::set_edge_property ret=r props=C07
-//@before "Ok(())"
+//@atend
         proof {
             let cv = old(self).current_version;
             if old(self).edge_version_log@.contains_key(edge_id) {
